@@ -160,7 +160,7 @@ SetBad(p, b) ==
 \* obj.centroid = target k  (obj.center likewise)
 SetCentroid(k, alias) ==
     /\ IF HasCentroid
-       THEN /\ cen' = k
+       THEN /\ cen' = IF k = "nudge" THEN "other" ELSE k     \* "nudge": the current centroid plus a displacement of 1e-6 of its size
             /\ stale' = Apply("translate")
             /\ ret' = Ok("centroid", <<k, alias>>)
             /\ UNCHANGED <<s, rot, chir, rr, fv, ecache>>
@@ -246,7 +246,7 @@ ToHoomd == /\ Cls \notin {"Circle", "Ellipse"}      \* Circle and Ellipse have n
 
 Next == \/ \E p \in SizeProps, l \in Lambdas : SetSize(p, l)
         \/ \E p \in SizeProps, b \in {"zero", "negative", "nan"} : SetBad(p, b)
-        \/ \E k \in {"origin", "target"}, a \in {"centroid", "center"} : SetCentroid(k, a)
+        \/ \E k \in {"origin", "target", "nudge"}, a \in {"centroid", "center"} : SetCentroid(k, a)
         \/ \E l \in Lambdas \cup {<<0, 1>>} : SetRadius(l)
         \/ \E p \in CoreSizeProps, l \in Lambdas : SetCoreSize(p, l)
         \/ SetRadiusNegative
